@@ -7,7 +7,7 @@ Require Import PG.C03.Model PG.C03.Refine.
 Require Import PG.C03.Spec PG.C03.SpecProofs PG.C03.Main.
 Require Import PG.C10.Locality PG.C10.Cost PG.C10.ValueLocal.
 Require PG.Props.C02 PG.Props.C03 PG.Props.C04 PG.Props.C05 PG.Props.C06 PG.Props.C07 PG.Props.C13 PG.Props.C15 PG.Props.C16 PG.Props.C19 PG.Props.C20.
-Require PG.Props.C01 PG.Props.C08 PG.Props.C14 PG.Props.C17 PG.Props.C18.
+Require PG.Props.C01 PG.Props.C08 PG.Props.C14 PG.Props.C17 PG.Props.C18 PG.Props.Dropped.
 
 (* ---- no panic: for ALL byte strings, ALL capacity tails, ALL schemas ---- *)
 Theorem C10_no_panic_ReadTuples : forall s v, ReadTuples s v <> Panic.
@@ -96,6 +96,16 @@ Proof. exact PG.Props.C17.C17_no_panic. Qed.
 Theorem C10_no_panic_Index : same_as PG.Props.C18.C18_no_panic.
 Proof. exact PG.Props.C18.C18_no_panic. Qed.
 Print Assumptions C10_no_panic_DumpDataDir.
+(* pgdump/dropped.go (sub-check Dropped): the two pg_attribute readers, the recovery loop and the four directory-level entry
+   points return on every byte string / every file system *)
+Theorem C10_no_panic_parseDroppedColumns : same_as PG.Props.Dropped.Dropped_no_panic_parseDroppedColumns.
+Proof. exact PG.Props.Dropped.Dropped_no_panic_parseDroppedColumns. Qed.
+Theorem C10_no_panic_parseAllAttributes : same_as PG.Props.Dropped.Dropped_no_panic_parseAllAttributes.
+Proof. exact PG.Props.Dropped.Dropped_no_panic_parseAllAttributes. Qed.
+Theorem C10_no_panic_dropped_recover : same_as PG.Props.Dropped.Dropped_no_panic_recover_core.
+Proof. exact PG.Props.Dropped.Dropped_no_panic_recover_core. Qed.
+Theorem C10_no_panic_dropped_dir : same_as PG.Props.Dropped.Dropped_no_panic_dir.
+Proof. exact PG.Props.Dropped.Dropped_no_panic_dir. Qed.
 Print Assumptions C10_no_panic_TOAST.
 Print Assumptions C10_total_decompressPGLZ.
 Print Assumptions C10_no_panic_ParsePGAuthID.
